@@ -163,6 +163,37 @@ func c17Exec(x *Ctx) {
 			}
 			return rr
 		}
+		// writeReq sends a Twrite; half of the time the client does not wait and further requests follow it at once
+		writeReq := func(f uint32, off uint64, data []byte) *Recvd {
+			wm := &Msg{Type: Twrite, Fid: f, Offset: off, Count: uint32(len(data)), Data: data}
+			if !r.Pct(50) {
+				return call(wm)
+			}
+			tag++
+			wm.Tag = tag
+			s1 := p.Write(wm)[0]
+			var more []*Sent
+			for n := r.Range(1, 3); n > 0; n-- {
+				tag++
+				more = append(more, p.Write(&Msg{Type: Tstat, Tag: tag, Fid: 0})[0])
+			}
+			rt.YieldUntil(rt.SiteActor, func() bool {
+				if p.EOF {
+					return true
+				}
+				for _, s := range more {
+					if s.Reply == nil {
+						return false
+					}
+				}
+				return s1.Reply != nil
+			})
+			if s1.Reply == nil || s1.Reply.M == nil {
+				x.Violate("t0-stalled", "%s got no reply", wm)
+			}
+			x.Probe("write-followed-by-pipelined-requests")
+			return s1.Reply
+		}
 		osrate := int(c.cfg("osrate"))
 		directedSkip := 0
 		var lastFault *rt.OSFired
@@ -343,7 +374,7 @@ func c17Exec(x *Ctx) {
 						if omode&3 != 0 {
 							data := pattern(r.Pick(0, 1, 100, 3000), uint64(k), 1, 1)
 							off := uint64(r.Pick(0, 0, 10, 5000))
-							wr := call(&Msg{Type: Twrite, Fid: f, Offset: off, Count: uint32(len(data)), Data: data})
+							wr := writeReq(f, off, data)
 							if wr != nil && wr.M != nil && wr.M.Type == Rwrite {
 								fb.WriteAt(data[:wr.M.Count], int64(off))
 							} else if wr != nil && wr.M != nil {
@@ -466,7 +497,7 @@ func c17Exec(x *Ctx) {
 					x.Violate("t3-open", "%s: open answered %s, the POSIX open gives %v", what, or.M, eb)
 				}
 				if or.M.Type == Ropen && eb == nil {
-					wr := call(&Msg{Type: Twrite, Fid: f, Offset: off, Count: uint32(len(data)), Data: data})
+					wr := writeReq(f, off, data)
 					if wr != nil && wr.M != nil && wr.M.Type == Rwrite {
 						if int(wr.M.Count) != len(data) {
 							x.Violate("t3-write", "%s wrote %d bytes", what, wr.M.Count)
